@@ -9,7 +9,7 @@ func vfC09Parent(src []byte, bound int) []byte {
 }
 
 func vfC09Uint32s(bound int) []uint32 {
-	n := vfChoice("nOffsets", 3)
+	n := 1 + vfChoice("nOffsets", 3) // ParseLoca always returns numGlyphs+1 >= 1 offsets
 	out := make([]uint32, n)
 	for i := range out {
 		out[i] = vfU32("offset")
@@ -28,7 +28,11 @@ func vfC09Bound() int {
 // length with arbitrary non-negative count arguments: no panic (index, slice, negative or huge make),
 // every loop terminates within the unwinding bound, and the reported read count stays inside the input.
 func VfH_C09_parse() {
-	k := vfChoice("parser", vfC09Count)
+	list := vfC09Quick
+	if vfThorough() {
+		list = vfC09Thorough
+	}
+	k := list[vfChoice("parser", len(list))]
 	bound := vfC09Bound()
 	n := vfInt("len", 0, bound)
 	src := vfBytes("src", n, bound)
